@@ -2221,3 +2221,1028 @@ Section CoordPos.
     exact (under_trans _ _ _ Up A).
   Qed.
 End CoordPos.
+Lemma coord_eq {H} (y : node H) r o : coord y = (r, o) -> nrow y = r /\ noff y = o.
+Proof. intros E. split; [exact (f_equal fst E)|exact (f_equal snd E)]. Qed.
+
+(** * 11. [prunePosition] keeps the invariant *)
+Definition set_nodes {H} (m : mstate H) (nd : nodemap H) : mstate H :=
+  mkM nd (ms_cached m) (ms_n m) (ms_total m) (ms_full m).
+
+Section PruneInv.
+  Variable H : Type.
+  Variable HO : ops H.
+  Hypothesis HOK : ops_ok HO.
+  Variable s : slots H.
+  Variables Rc Rn : list H.
+  Notation lay := (layout HO s).
+
+  Section One.
+  Variable m : mstate H.
+  Hypothesis I : Inv2 HO s Rc Rn m.
+  Notation T := (ms_total m).
+  Notation N0 := (ms_nodes m).
+  Notation gpx := (fun y : node H => gp (ms_total m) (nrow y) (noff y)).
+
+  Lemma pi_n63 : N.of_nat (length s) <= 2 ^ 63.
+  Proof. pose proof (i_n I) as E. unfold num_leaves in E. rewrite <- E. exact (i_n63 I). Qed.
+  Lemma pi_Tlo : TreeRows (N.of_nat (length s)) <= T.
+  Proof. pose proof (i_n I) as E. unfold num_leaves in E. rewrite <- E. exact (i_rows I). Qed.
+
+  Lemma pi_valid y : In y lay -> N.of_nat (nrow y) <= T /\ noff y < 2 ^ (T - N.of_nat (nrow y)).
+  Proof. exact (ng_valid H HO s T pi_n63 pi_Tlo (i_T63 I) y). Qed.
+  Lemma pi_inj y y' : In y lay -> In y' lay -> gpx y = gpx y' -> y = y'.
+  Proof. exact (ng_inj H HO s T pi_n63 pi_Tlo (i_T63 I) y y'). Qed.
+
+  (** deleting the position of a node that is not needed *)
+  Lemma del_Inv2 a : In a lay -> nroot a = false ->
+    ~ (nleaf a = true /\ In (nhash a) Rn) ->
+    (forall w, In w lay -> nleaf w = true -> In (nhash w) Rn -> forall k : nat,
+       (nrow w + k < ntree w)%nat ->
+       ((nrow w + k)%nat, N.lxor (noff w / 2 ^ N.of_nat k) 1) <> coord a) ->
+    Inv2 HO s Rc Rn (set_nodes m (nodes_del (gpx a) N0)).
+  Proof.
+    intros Ha Hra Hnl Hns. constructor; cbn [set_nodes ms_n ms_total ms_nodes ms_cached];
+      try exact (i_n I); try exact (i_n63 I); try exact (i_rows I); try exact (i_T63 I);
+      try exact (i_live_nd I); try exact (i_live_nn I); try exact (i_live_nz I);
+      try exact (i_ckeys I); try exact (i_Rn I); try exact (i_sub I); try exact (i_cached I).
+    - apply keys_del, (i_keys I).
+    - intros p h b E. rewrite rg_del in E. destruct (p =? gpx a); [discriminate|]. exact (i_true I p h b E).
+    - intros y Hy Ry. rewrite rg_del. destruct (N.eqb_spec (gpx y) (gpx a)) as [E|_].
+      + rewrite (pi_inj y a Hy Ha E) in Ry. congruence.
+      + exact (i_roots I y Hy Ry).
+    - intros y Hy Ly Hh. rewrite rg_del. destruct (N.eqb_spec (gpx y) (gpx a)) as [E|_].
+      + exfalso. apply Hnl. rewrite <- (pi_inj y a Hy Ha E). auto.
+      + exact (i_leaf I y Hy Ly Hh).
+    - intros w Hw Lw Hh k Hk. rewrite rg_del.
+      destruct (N.eqb_spec (gp T (nrow w + k) (N.lxor (noff w / 2 ^ N.of_nat k) 1)) (gpx a)) as [E|_].
+      + exfalso. apply (Hns w Hw Lw Hh k Hk).
+        destruct (pi_valid w Hw) as [Aw Bw]. destruct (pi_valid a Ha) as [Aa Ba].
+        destruct (ng_ancestor H HO s T pi_n63 pi_Tlo (i_T63 I) w Hw (S k) ltac:(lia)) as (y & Hy & Ey & _).
+        destruct (coord_eq _ _ _ Ey) as [Er _]. destruct (pi_valid y Hy) as [Ay _].
+        assert (HrT : N.of_nat (nrow w + k) < T) by lia.
+        assert (Hv : noff w / 2 ^ N.of_nat k < 2 ^ (T - N.of_nat (nrow w + k))).
+        { rewrite Nat2N.inj_add. apply anc_valid; [lia|exact Bw]. }
+        destruct (sib_offsets_lt T _ _ HrT Hv) as (Hvs & _).
+        unfold gp in E. destruct (gpos_inj T _ _ _ _ (N.lt_le_incl _ _ HrT) Hvs Aa Ba E) as [E1 E2].
+        unfold coord. f_equal; [lia|exact E2].
+      + exact (i_sibs I w Hw Lw Hh k Hk).
+  Qed.
+
+  Lemma pi_children y r' : In y lay -> nrow y = S r' ->
+    LeftChild (gpx y) T = gp T r' (2 * noff y) /\ RightChild (gpx y) T = gp T r' (2 * noff y + 1) /\
+    DetectRow (gpx y) T = N.of_nat (S r').
+  Proof.
+    intros Hy Er. destruct (pi_valid y Hy) as [A B]. cbv beta. unfold gp. rewrite Er in *.
+    replace (N.of_nat (S r')) with (N.of_nat r' + 1) in * by lia.
+    assert (B' : noff y < 2 ^ (T - N.of_nat r' - 1))
+      by (replace (T - N.of_nat r' - 1) with (T - (N.of_nat r' + 1)) by lia; exact B).
+    split; [apply LeftChild_gpos; try assumption; try lia; exact (i_T63 I)|].
+    split; [apply RightChild_gpos; try assumption; try lia; exact (i_T63 I)|].
+    apply DetectRow_gpos; [exact (i_T63 I)|exact A|exact B].
+  Qed.
+
+  (** one half of [prunePosition]: [a] goes unless a child of its sibling [b] is stored *)
+  Lemma try_del_Inv2 a b : In a lay -> In b lay -> nroot a = false ->
+    coord b = (nrow a, N.lxor (noff a) 1) ->
+    snd (nodes_get0 HO N0 (gpx a)) = false -> snd (nodes_get0 HO N0 (gpx b)) = false ->
+    Inv2 HO s Rc Rn (set_nodes m (if niecesPresent T N0 (gpx a) then N0 else nodes_del (gpx a) N0)).
+  Proof.
+    intros Ha Hb Hra Eb Fa Fb. destruct (niecesPresent T N0 (gpx a)) eqn:Enp.
+    - destruct m; exact I.
+    - destruct (coord_eq _ _ _ Eb) as [Ebr Ebo].
+      apply del_Inv2; [exact Ha|exact Hra| |].
+      + intros [La Hh]. unfold nodes_get0 in Fa. rewrite (i_leaf I a Ha La Hh) in Fa. discriminate.
+      + intros w Hw Lw Hh k Hk Ec.
+        (* the k-th ancestor of w is b *)
+        assert (Ecb : ((nrow w + k)%nat, noff w / 2 ^ N.of_nat k) = coord b).
+        { unfold coord in Ec |- *. injection Ec as E1 E2. rewrite Ebr, Ebo, <- E1, <- E2, pps_lxor_invol. reflexivity. }
+        destruct k as [|k].
+        * rewrite Nat.add_0_r, N.pow_0_r, N.div_1_r in Ecb.
+          assert (w = b) by (apply (ng_coord_eq H HO s w b Hw Hb); exact Ecb). subst w.
+          unfold nodes_get0 in Fb. rewrite (i_leaf I b Hb Lw Hh) in Fb. discriminate.
+        * (* a child of b is on the path: its sibling, the other child, is stored *)
+          pose proof (i_sibs I w Hw Lw Hh k ltac:(lia)) as Hs.
+          destruct (coord_eq _ _ _ (eq_sym Ecb)) as [Er Eo].
+          assert (Er' : nrow b = S (nrow w + k)) by lia.
+          destruct (pi_children b (nrow w + k) Hb Er') as (EL & ER & _).
+          destruct (pi_children a (nrow w + k) Ha ltac:(lia)) as (_ & _ & ED).
+          assert (Esib : sibling (gpx a) = gpx b).
+          { destruct (pi_valid a Ha) as [A _]. cbv beta. unfold gp. rewrite sibling_gpos by exact A.
+            rewrite Ebr, Ebo. reflexivity. }
+          unfold niecesPresent in Enp. rewrite Esib, EL, ER, ED in Enp.
+          destruct (N.eqb_spec (N.of_nat (S (nrow w + k))) 0) as [E0|_]; [lia|].
+          apply orb_false_iff in Enp as [N1 N2]. unfold nodes_has in N1, N2.
+          assert (Eo2 : noff b = noff w / 2 ^ N.of_nat k / 2).
+          { rewrite Eo, Nat2N.inj_succ, <- N.add_1_r, N.pow_add_r, N.pow_1_r.
+            rewrite N.div_div by (try apply pow2_nz; lia). reflexivity. }
+          set (o' := noff w / 2 ^ N.of_nat k) in *. rewrite Eo2 in N1, N2.
+          destruct (pps_bit0 o') as (q & [(E1 & E2 & _ & E4)|(E1 & E2 & _ & E4)]); rewrite E2 in Hs; rewrite E4 in N1, N2.
+          -- destruct (nodes_get N0 (gp T (nrow w + k) (2 * q + 1))); [discriminate|congruence].
+          -- destruct (nodes_get N0 (gp T (nrow w + k) (2 * q))); [discriminate|congruence].
+  Qed.
+  End One.
+
+  (** [prunePosition] at a node that is no root *)
+  Lemma prunePosition_Inv2 m q : Inv2 HO s Rc Rn m -> In q lay -> nroot q = false ->
+    Inv2 HO s Rc Rn (set_nodes m (prunePosition HO (ms_total m) (ms_nodes m)
+                                    (gp (ms_total m) (nrow q) (noff q)))).
+  Proof.
+    intros I Hq Hr.
+    destruct (ng_family H HO s q Hq Hr) as (p & sq & _ & Hsq & Hsr & _ & Esq & _).
+    destruct (coord_eq _ _ _ Esq) as [Er Eo].
+    assert (Esib : sibling (gp (ms_total m) (nrow q) (noff q)) = gp (ms_total m) (nrow sq) (noff sq)).
+    { destruct (pi_valid m I q Hq) as [A _]. unfold gp. rewrite sibling_gpos by exact A.
+      rewrite Er, Eo. reflexivity. }
+    unfold prunePosition. rewrite Esib.
+    destruct (snd (nodes_get0 HO (ms_nodes m) (gp (ms_total m) (nrow q) (noff q)))) eqn:Fq; cbn [negb andb];
+      [destruct m; exact I|].
+    destruct (snd (nodes_get0 HO (ms_nodes m) (gp (ms_total m) (nrow sq) (noff sq)))) eqn:Fs; cbn [negb andb];
+      [destruct m; exact I|].
+    assert (Eq : coord q = (nrow sq, N.lxor (noff sq) 1)).
+    { unfold coord. rewrite Er, Eo, pps_lxor_invol. reflexivity. }
+    pose proof (try_del_Inv2 m I sq q Hsq Hq Hsr Eq Fs Fq) as I1.
+    set (nd1 := if niecesPresent (ms_total m) (ms_nodes m) (gp (ms_total m) (nrow sq) (noff sq))
+                then ms_nodes m else nodes_del (gp (ms_total m) (nrow sq) (noff sq)) (ms_nodes m)) in *.
+    assert (Hne : gp (ms_total m) (nrow q) (noff q) <> gp (ms_total m) (nrow sq) (noff sq)).
+    { intros E. pose proof (pi_inj m I q sq Hq Hsq E) as Eqs. rewrite Eqs in Eo.
+      pose proof (lxor_1 (noff sq)) as Hx. destruct (N.even (noff sq)) eqn:Ev; [lia|].
+      pose proof (odd_nz _ Ev). lia. }
+    pose proof (try_del_Inv2 (set_nodes m nd1) I1 q sq Hq Hsq Hr Esq) as I2.
+    cbn [set_nodes ms_nodes ms_total ms_cached ms_n ms_full] in I2. apply I2.
+    - unfold nd1. destruct (niecesPresent _ _ _); [exact Fq|].
+      unfold nodes_get0. rewrite rg_del.
+      destruct (N.eqb_spec (gp (ms_total m) (nrow q) (noff q)) (gp (ms_total m) (nrow sq) (noff sq))) as [E|_]; [contradiction|exact Fq].
+    - unfold nd1. destruct (niecesPresent _ _ _); [exact Fs|].
+      unfold nodes_get0. rewrite rg_del, N.eqb_refl. reflexivity.
+  Qed.
+
+  (** the loop of [forgetUnneededDel] from a node that is no root *)
+  Lemma fud_node_Inv2 : forall (fuel : nat) row m y, Inv2 HO s Rc Rn m -> In y lay -> nroot y = false ->
+    Inv2 HO s Rc Rn (set_nodes m (fud_loop HO fuel (ms_n m) (ms_total m) row
+                                     (gp (ms_total m) (nrow y) (noff y)) (ms_nodes m))).
+  Proof.
+    induction fuel as [|f IH]; intros row m y I Hy Hr; [destruct m; exact I|].
+    cbn [fud_loop]. destruct (ms_total m <? row); [destruct m; exact I|].
+    destruct (ng_family H HO s y Hy Hr) as (p & _ & Hp & _ & _ & _ & _ & Ep & _).
+    destruct (coord_eq _ _ _ Ep) as [Er Eo].
+    assert (Epar : Parent (gp (ms_total m) (nrow y) (noff y)) (ms_total m) = gp (ms_total m) (nrow p) (noff p)).
+    { destruct (pi_valid m I y Hy) as [A B]. destruct (pi_valid m I p Hp) as [C _].
+      unfold gp. rewrite Parent_gpos; [|exact (i_T63 I)|lia|exact B]. rewrite Er, Eo. f_equal. lia. }
+    rewrite Epar.
+    assert (Eroot : isRootPositionTotalRows (gp (ms_total m) (nrow p) (noff p)) (ms_n m) (ms_total m) = nroot p).
+    { pose proof (i_n I) as En. unfold num_leaves in En. rewrite En.
+      exact (ng_isroot H HO s (ms_total m) (pi_n63 m I) (pi_Tlo m I) (i_T63 I) p Hp). }
+    rewrite Eroot. destruct (nroot p) eqn:Rp; [destruct m; exact I|].
+    pose proof (prunePosition_Inv2 m p I Hp Rp) as I1.
+    exact (IH (add8 row 1) _ p I1 Hp Rp).
+  Qed.
+End PruneInv.
+
+Section FudFromDel.
+  Variable H : Type.
+  Variable HO : ops H.
+  Variable s : slots H.
+  Variables Rc Rn : list H.
+
+  (** [forgetUnneededDel] from a deleted position whose parent position holds the node [y0] *)
+  Lemma fud_from_del m r o y0 : Inv2 HO s Rc Rn m -> In y0 (layout HO s) ->
+    r < ms_total m -> o < 2 ^ (ms_total m - r) ->
+    gp (ms_total m) (nrow y0) (noff y0) = gpos (ms_total m) (r + 1) (o / 2) ->
+    isRootPositionTotalRows (gpos (ms_total m) r o) (ms_n m) (ms_total m) = false ->
+    Inv2 HO s Rc Rn (set_nodes m (forgetUnneededDel HO (ms_n m) (ms_total m) (gpos (ms_total m) r o)
+                                    (ms_nodes m))).
+  Proof.
+    intros I Hy0 Hr Ho Eg Hnr. pose proof (i_T63 I) as HT.
+    unfold forgetUnneededDel. rewrite Hnr.
+    rewrite DetectRow_gpos by (try assumption; lia).
+    change 300%nat with (S 299).
+    cbn [fud_loop].
+    destruct (N.ltb_spec (ms_total m) r) as [Lt|_]; [lia|].
+    rewrite Parent_gpos by assumption. rewrite <- Eg.
+    assert (Eroot : isRootPositionTotalRows (gp (ms_total m) (nrow y0) (noff y0)) (ms_n m) (ms_total m) = nroot y0).
+    { pose proof (i_n I) as En. unfold num_leaves in En. rewrite En.
+      exact (ng_isroot H HO s (ms_total m) (pi_n63 H HO s Rc Rn m I) (pi_Tlo H HO s Rc Rn m I) HT y0 Hy0). }
+    rewrite Eroot. destruct (nroot y0) eqn:Ry; [destruct m; exact I|].
+    pose proof (prunePosition_Inv2 H HO s Rc Rn m y0 I Hy0 Ry) as I5.
+    exact (fud_node_Inv2 H HO s Rc Rn 299 (add8 r 1) _ y0 I5 Hy0 Ry).
+  Qed.
+End FudFromDel.
+
+(** * 12. One [removeSingle] on a node that is no root *)
+(** arithmetic of the offsets of one block of positions *)
+Lemma block_div a j b k : b < 2 ^ j -> k <= j ->
+  (a * 2 ^ j + b) / 2 ^ k = a * 2 ^ (j - k) + b / 2 ^ k /\ b / 2 ^ k < 2 ^ (j - k).
+Proof.
+  intros Hb Hk. assert (E : 2 ^ j = 2 ^ (j - k) * 2 ^ k).
+  { rewrite <- N.pow_add_r. f_equal. lia. }
+  split.
+  - rewrite E, N.mul_assoc, N.div_add_l by apply pow2_nz. reflexivity.
+  - apply N.div_lt_upper_bound; [apply pow2_nz|]. rewrite N.mul_comm, <- E. exact Hb.
+Qed.
+
+Lemma block_div_hi a j b k : b < 2 ^ j -> j <= k -> (a * 2 ^ j + b) / 2 ^ k = a / 2 ^ (k - j).
+Proof.
+  intros Hb Hk. replace k with (j + (k - j)) at 1 by lia. rewrite N.pow_add_r.
+  rewrite <- N.div_div by apply pow2_nz. rewrite N.div_add_l by apply pow2_nz.
+  rewrite (N.div_small b) by exact Hb. f_equal. lia.
+Qed.
+
+Lemma block_lxor a m c : 1 <= m -> c < 2 ^ m ->
+  N.lxor (a * 2 ^ m + c) 1 = a * 2 ^ m + N.lxor c 1 /\ N.lxor c 1 < 2 ^ m.
+Proof.
+  intros Hm Hc. replace m with (m - 1 + 1) in * by lia. rewrite pow2_S in *.
+  set (X := 2 ^ (m - 1)) in *.
+  assert (Ev' : N.even (a * (2 * X) + c) = N.even c).
+  { replace (a * (2 * X) + c) with (c + 2 * (a * X)) by lia. apply N.even_add_mul_2. }
+  rewrite !lxor_1, Ev'. destruct (N.even c) eqn:Ev.
+  - apply N.even_spec in Ev as [q ->]. split; lia.
+  - pose proof (odd_nz _ Ev). split; lia.
+Qed.
+
+Section StepInner.
+  Variable H : Type.
+  Variable HO : ops H.
+  Hypothesis HOK : ops_ok HO.
+  Variable s : slots H.
+  Variables Rc Rn : list H.
+  Variable m : mstate H.
+  Hypothesis I : Inv2 HO s Rc Rn m.
+  Variable L : list H.
+  Variable x : node H.
+  Hypothesis Hx : In x (layout HO s).
+  Hypothesis Hxr : nroot x = false.
+  Hypothesis Hdel : forall y, In y (layout HO s) -> nleaf y = true ->
+    (memH HO (nhash y) L = true <-> under (coord x) (coord y)).
+  Hypothesis HLc : forall y, In y (layout HO s) -> nleaf y = true -> under (coord x) (coord y) ->
+    ~ In (nhash y) Rc.
+  Variable z : node H.
+  Hypothesis Hz : In z (layout HO s).
+  Hypothesis Lz : nleaf z = true.
+  Hypothesis Uz : under (coord x) (coord z).
+  Hypothesis Rz : In (nhash z) Rn.
+
+  Notation lay := (layout HO s).
+  Notation s' := (kill HO L s).
+  Notation lay' := (layout HO (kill HO L s)).
+  Notation T := (ms_total m).
+  Notation n := (ms_n m).
+  Notation N0 := (ms_nodes m).
+  Notation ca := (ms_cached m).
+  Notation gpx := (fun y : node H => gp (ms_total m) (nrow y) (noff y)).
+  Notation rd := (nrow x).
+  Notation od := (noff x).
+  Notation rdN := (N.of_nat (nrow x)).
+  Notation pU := (posU (ms_total m) (N.of_nat (nrow x)) (noff x)).
+  Notation pS := (posS (ms_total m) (N.of_nat (nrow x)) (noff x)).
+
+  Lemma si_len : n = N.of_nat (length s).
+  Proof. exact (i_n I). Qed.
+  Lemma si_n63 : N.of_nat (length s) <= 2 ^ 63.
+  Proof. rewrite <- si_len. exact (i_n63 I). Qed.
+  Lemma si_Tlo : TreeRows (N.of_nat (length s)) <= T.
+  Proof. rewrite <- si_len. exact (i_rows I). Qed.
+  Notation HT63 := (i_T63 I).
+
+  Lemma si_valid y : In y lay -> N.of_nat (nrow y) <= T /\ noff y < 2 ^ (T - N.of_nat (nrow y)).
+  Proof. exact (ng_valid H HO s T si_n63 si_Tlo HT63 y). Qed.
+  Lemma si_inj y y' : In y lay -> In y' lay -> gpx y = gpx y' -> y = y'.
+  Proof. exact (ng_inj H HO s T si_n63 si_Tlo HT63 y y'). Qed.
+
+  Lemma si_family : exists p sb, In p lay /\ In sb lay /\ nroot sb = false /\ nleaf p = false /\
+      coord sb = (rd, N.lxor od 1) /\ coord p = (S rd, od / 2) /\
+      ntree p = ntree x /\ ntree sb = ntree x.
+  Proof.
+    destruct (ng_family H HO s x Hx Hxr) as (p & sb & A1 & A2 & A3 & A4 & A5 & A6 & A7 & A8 & _).
+    exists p, sb. repeat split; assumption.
+  Qed.
+
+  Lemma si_rd : rdN < T.
+  Proof.
+    destruct si_family as (p & sb & Hp & _ & _ & _ & _ & Ep & _).
+    destruct (si_valid p Hp) as [A _]. unfold coord in Ep. injection Ep as Er _. rewrite Er in A. lia.
+  Qed.
+  Lemma si_od : od < 2 ^ (T - rdN).
+  Proof. exact (proj2 (si_valid x Hx)). Qed.
+
+  Lemma si_rd_tree : (rd < ntree x)%nat.
+  Proof. apply (nonroot_iff_row H HO s si_n63 x Hx). exact Hxr. Qed.
+
+  Lemma si_tree_z : ntree z = ntree x.
+  Proof. exact (ng_same_tree H HO s x z Hx Hz Uz). Qed.
+
+  (** the sibling of every ancestor of [x] (inside the tree) is stored *)
+  Lemma si_sib_stored (k : nat) : (rd + k < ntree x)%nat ->
+    nodes_get N0 (gp T (rd + k) (N.lxor (od / 2 ^ N.of_nat k) 1)) <> None.
+  Proof.
+    intros Hk. destruct Uz as [Hr E]. unfold coord in Hr, E. cbn [fst snd] in Hr, E.
+    pose proof (i_sibs I z Hz Lz Rz (rd - nrow z + k)%nat ltac:(rewrite si_tree_z; lia)) as Hs.
+    replace (nrow z + (rd - nrow z + k))%nat with (rd + k)%nat in Hs by lia.
+    replace (noff z / 2 ^ N.of_nat (rd - nrow z + k)) with (od / 2 ^ N.of_nat k) in Hs; [exact Hs|].
+    rewrite Nat2N.inj_add, N.pow_add_r, <- N.div_div by apply pow2_nz. unfold p2 in E. rewrite E. reflexivity.
+  Qed.
+
+  (** stored values are hashes of nodes *)
+  Lemma si_stored_node y v : In y lay -> nodes_get N0 (gpx y) = Some v -> fst v = nhash y.
+  Proof.
+    intros Hy E. destruct v as [h b]. destruct (i_true I _ _ _ E) as (y' & Hy' & Ep & Eh).
+    rewrite (si_inj y y' Hy Hy' Ep). symmetry. exact Eh.
+  Qed.
+
+  Lemma si_uniq q1 q2 v1 v2 : nodes_get N0 q1 = Some v1 -> nodes_get N0 q2 = Some v2 ->
+    fst v1 = fst v2 -> cached_has HO ca (fst v1) = true -> q1 = q2.
+  Proof.
+    intros E1 E2 Ef Hh. destruct v1 as [h1 b1], v2 as [h2 b2]. cbn [fst] in *. subst h2.
+    destruct (i_true I _ _ _ E1) as (y1 & Hy1 & -> & Eh1).
+    destruct (i_true I _ _ _ E2) as (y2 & Hy2 & -> & Eh2).
+    apply (chas_get H HO) in Hh. destruct (cached_get HO ca h1) as [p|] eqn:Ec; [|congruence].
+    apply (i_cached I) in Ec as (_ & w & Hw & Lw & Ew & _).
+    rewrite (inv_leaf_hash H HO s Rc Rn m I y1 w Hy1 Hw Lw ltac:(congruence)).
+    rewrite (inv_leaf_hash H HO s Rc Rn m I y2 w Hy2 Hw Lw ltac:(congruence)). reflexivity.
+  Qed.
+
+  (** ** the family of [x] *)
+  Variables p sb : node H.
+  Hypothesis Hp : In p lay.
+  Hypothesis Hsb : In sb lay.
+  Hypothesis Hsbr : nroot sb = false.
+  Hypothesis Hpl : nleaf p = false.
+  Hypothesis Esb : coord sb = (rd, N.lxor od 1).
+  Hypothesis Ep : coord p = (S rd, od / 2).
+  Hypothesis Etp : ntree p = ntree x.
+  Hypothesis Ets : ntree sb = ntree x.
+  Notation fl := (S (nrow x) =? ntree x)%nat.
+  Notation Pc := (S (nrow x), noff x / 2).
+  Notation sbc := (nrow x, N.lxor (noff x) 1).
+
+  Lemma si_gpx_x : gpx x = gpos T rdN od. Proof. reflexivity. Qed.
+  Lemma si_gpx_sb : gpx sb = gpos T rdN (N.lxor od 1).
+  Proof. cbv beta. unfold coord in Esb. injection Esb as -> ->. reflexivity. Qed.
+  Lemma si_gpx_p : gpx p = gpos T (rdN + 1) (od / 2).
+  Proof. cbv beta. unfold coord in Ep. injection Ep as -> ->. unfold gp. f_equal. lia. Qed.
+
+  (** ** the images of the nodes in the layout after the deletion *)
+  Lemma ref_other y : In y lay -> ~ under Pc (coord y) -> ~ under (coord y) Pc -> In y lay'.
+  Proof. intros Hy. exact (proj1 (kill_inner H HO s L x Hx Hdel Hxr y Hy)). Qed.
+  Lemma ref_sb y : In y lay -> under sbc (coord y) -> In (upn H rd fl y) lay'.
+  Proof. intros Hy. exact (proj1 (proj2 (kill_inner H HO s L x Hx Hdel Hxr y Hy))). Qed.
+  Lemma ref_anc y : In y lay -> under (coord y) Pc -> coord y <> Pc -> exists h', In (sethash H y h') lay'.
+  Proof. intros Hy. exact (proj2 (proj2 (kill_inner H HO s L x Hx Hdel Hxr y Hy))). Qed.
+
+  Lemma upn_coord_sb : coord (upn H rd fl sb) = Pc.
+  Proof.
+    unfold coord in *. injection Esb as Er Eo. unfold upn. cbn [nrow noff]. rewrite Er, Eo, Nat.sub_diag.
+    f_equal. unfold rmbit. cbn [N.of_nat]. rewrite N.add_0_l, N.pow_1_r, N.pow_0_r, N.mul_1_r, N.mod_1_r, N.add_0_r.
+    destruct (bl_sbo T rdN od HT63 si_rd si_od) as (_ & E & _). exact E.
+  Qed.
+
+  (** ** the chain of ancestors of the parent *)
+  Definition ao (k : nat) : N := od / 2 / 2 ^ N.of_nat k.
+  Notation J := (ntree x - S (nrow x))%nat.
+
+  Lemma ao_S k : ao (S k) = ao k / 2.
+  Proof.
+    unfold ao. rewrite Nat2N.inj_succ, <- N.add_1_r, N.pow_add_r, N.pow_1_r.
+    rewrite <- N.div_div by (try apply pow2_nz; lia). reflexivity.
+  Qed.
+
+  Lemma ao_od k : ao k = od / 2 ^ N.of_nat (S k).
+  Proof.
+    unfold ao. rewrite N.div_div by (try apply pow2_nz; lia).
+    rewrite Nat2N.inj_succ, <- N.add_1_r, N.pow_add_r, N.pow_1_r. f_equal. lia.
+  Qed.
+
+  Lemma chain_node (k : nat) : (k <= J)%nat ->
+    exists y, In y lay /\ coord y = ((S rd + k)%nat, ao k) /\ ntree y = ntree x /\ nleaf y = false /\
+              nroot y = (k =? J)%nat.
+  Proof.
+    intros Hk. pose proof si_rd_tree as Hlt.
+    destruct (ng_ancestor H HO s T si_n63 si_Tlo HT63 x Hx (S k) ltac:(lia)) as (y & Hy & Ey & Ety & Hl).
+    exists y. split; [exact Hy|]. split; [rewrite Ey, ao_od; f_equal; lia|]. split; [exact Ety|].
+    split; [apply Hl; lia|]. unfold coord in Ey. injection Ey as Er _.
+    destruct (Nat.eqb_spec k J) as [E|E].
+    - apply (root_iff_row H HO s y Hy). lia.
+    - apply (nonroot_iff_row H HO s si_n63 y Hy). lia.
+  Qed.
+
+  Lemma chain_p : forall y, In y lay -> coord y = (S rd, ao 0) -> y = p.
+  Proof.
+    intros y Hy Ey. apply (ng_coord_eq H HO s y p Hy Hp). rewrite Ey, Ep. unfold ao.
+    rewrite N.pow_0_r, N.div_1_r. reflexivity.
+  Qed.
+
+  (** the chain lies above the parent *)
+  Lemma chain_above k : under ((S rd + k)%nat, ao k) Pc.
+  Proof.
+    split; cbn [fst snd]; [lia|]. unfold ao, p2. f_equal. f_equal. lia.
+  Qed.
+
+  Lemma chain_sib (k : nat) : (k < J)%nat ->
+    exists sk, In sk lay /\ coord sk = ((S rd + k)%nat, N.lxor (ao k) 1) /\
+      ~ under Pc (coord sk) /\ ~ under (coord sk) Pc /\
+      exists b, nodes_get N0 (gpx sk) = Some (nhash sk, b).
+  Proof.
+    intros Hk. destruct (chain_node k ltac:(lia)) as (y & Hy & Ey & Ety & _ & Hr).
+    assert (Hnr : nroot y = false) by (rewrite Hr; apply Nat.eqb_neq; lia).
+    destruct (ng_family H HO s y Hy Hnr) as (py & sk & _ & Hsk & _ & _ & Esk & _).
+    unfold coord in Ey. injection Ey as Er Eo. rewrite Er, Eo in Esk.
+    exists sk. split; [exact Hsk|]. split; [exact Esk|].
+    assert (Hne : N.lxor (ao k) 1 <> ao k).
+    { pose proof (lxor_1 (ao k)) as Hx'. destruct (N.even (ao k)) eqn:Ev; [lia|].
+      pose proof (odd_nz _ Ev). lia. }
+    split; [|split].
+    - rewrite Esk. intros [Hle E]. cbn [fst snd] in *. assert (k = 0)%nat by lia. subst k.
+      replace (S rd - S (rd + 0))%nat with 0%nat in E by lia. rewrite p2_0, N.div_1_r in E.
+      unfold ao in E, Hne. cbn [N.of_nat] in E, Hne. rewrite N.pow_0_r, N.div_1_r in E, Hne. contradiction.
+    - rewrite Esk. intros U. pose proof (chain_above k) as U2.
+      destruct U as [_ E1], U2 as [_ E2]. cbn [fst snd] in E1, E2.
+      replace (S (rd + k) - S rd)%nat with k in E1 by lia.
+      replace (S rd + k - S rd)%nat with k in E2 by lia. congruence.
+    - pose proof (si_sib_stored (S k) ltac:(pose proof si_rd_tree; lia)) as Hs.
+      rewrite <- ao_od in Hs. replace (rd + S k)%nat with (S rd + k)%nat in Hs by lia.
+      unfold coord in Esk. injection Esk as Esr Eso.
+      assert (Eg : gpx sk = gp T (S rd + k) (N.lxor (ao k) 1)) by (rewrite Esr, Eso; reflexivity).
+      rewrite <- Eg in Hs. destruct (nodes_get N0 (gpx sk)) as [[h b]|] eqn:E; [|congruence].
+      exists b. pose proof (si_stored_node sk (h, b) Hsk E) as Eh. cbn [fst] in Eh. subst h. reflexivity.
+  Qed.
+
+  (** ** the hashes on the path after the deletion *)
+  Definition nh (k : nat) : H :=
+    match tnode HO s' (S rd + k) (ao k) with Some y' => nhash y' | None => op_empty HO end.
+  Definition sh (k : nat) : H :=
+    match tnode HO s (S rd + k) (N.lxor (ao k) 1) with Some y => nhash y | None => op_empty HO end.
+
+  Lemma ao_0 : ao 0 = od / 2.
+  Proof. unfold ao. cbn [N.of_nat]. rewrite N.pow_0_r, N.div_1_r. reflexivity. Qed.
+
+  Lemma new_node k : (k <= J)%nat ->
+    exists y', In y' lay' /\ coord y' = ((S rd + k)%nat, ao k) /\ nhash y' = nh k /\ ntree y' = ntree x /\
+               ((1 <= k)%nat -> nleaf y' = false /\ nroot y' = (k =? J)%nat).
+  Proof.
+    intros Hk.
+    assert (Hgen : forall y', In y' lay' -> coord y' = ((S rd + k)%nat, ao k) -> nhash y' = nh k).
+    { intros y' Hy' Ey'. destruct (coord_eq _ _ _ Ey') as [Er Eo]. unfold nh.
+      rewrite <- Er, <- Eo, (tnode_in H HO s' y' Hy'). reflexivity. }
+    destruct (Nat.eq_dec k 0) as [->|Hk0].
+    - exists (upn H rd fl sb).
+      assert (Hin : In (upn H rd fl sb) lay') by (apply ref_sb; [exact Hsb|rewrite Esb; apply under_refl]).
+      assert (Ec : coord (upn H rd fl sb) = ((S rd + 0)%nat, ao 0)).
+      { rewrite upn_coord_sb, ao_0. f_equal. lia. }
+      split; [exact Hin|]. split; [exact Ec|]. split; [exact (Hgen _ Hin Ec)|].
+      split; [exact Ets|]. intros C. lia.
+    - destruct (chain_node k Hk) as (y & Hy & Ey & Ety & Ly & Ry).
+      destruct (ref_anc y Hy) as [h' Hh'].
+      + rewrite Ey. apply chain_above.
+      + rewrite Ey. intros C. injection C as C _. lia.
+      + exists (sethash H y h').
+        assert (Ec : coord (sethash H y h') = ((S rd + k)%nat, ao k)) by exact Ey.
+        split; [exact Hh'|]. split; [exact Ec|]. split; [exact (Hgen _ Hh' Ec)|].
+        split; [exact Ety|]. intros _. split; [exact Ly|exact Ry].
+  Qed.
+
+  Lemma nh_0 : nh 0 = nhash sb.
+  Proof.
+    assert (Hin : In (upn H rd fl sb) lay') by (apply ref_sb; [exact Hsb|rewrite Esb; apply under_refl]).
+    pose proof upn_coord_sb as Ec. destruct (coord_eq _ _ _ Ec) as [Er Eo].
+    unfold nh. replace (S rd + 0)%nat with (S rd) by lia. rewrite ao_0.
+    rewrite <- Er at 1. rewrite <- Eo. rewrite (tnode_in H HO s' _ Hin). reflexivity.
+  Qed.
+
+  Lemma nh_rec k : (k < J)%nat ->
+    nh (S k) = if N.even (ao k) then op_hash2 HO (nh k) (sh k) else op_hash2 HO (sh k) (nh k).
+  Proof.
+    intros Hk.
+    destruct (new_node (S k) ltac:(lia)) as (y1 & Hy1 & Ey1 & Eh1 & _ & Hl1).
+    destruct (Hl1 ltac:(lia)) as [Ly1 _].
+    destruct (new_node k ltac:(lia)) as (y0 & Hy0 & Ey0 & Eh0 & _ & _).
+    destruct (chain_sib k Hk) as (sk & Hsk & Esk & Hn1 & Hn2 & _).
+    pose proof (ref_other sk Hsk Hn1 Hn2) as Hsk'.
+    assert (Esh : sh k = nhash sk).
+    { unfold sh. destruct (coord_eq _ _ _ Esk) as [Er Eo]. rewrite <- Er, <- Eo.
+      rewrite (tnode_in H HO s sk Hsk). reflexivity. }
+    assert (T0 : tnode HO s' (S rd + k) (ao k) = Some y0).
+    { destruct (coord_eq _ _ _ Ey0) as [Er Eo]. rewrite <- Er, <- Eo. apply tnode_in, Hy0. }
+    assert (Ts : tnode HO s' (S rd + k) (N.lxor (ao k) 1) = Some sk).
+    { destruct (coord_eq _ _ _ Esk) as [Er Eo]. rewrite <- Er, <- Eo. apply tnode_in, Hsk'. }
+    assert (T1 : tnode HO s' (S (S rd + k)) (ao (S k)) = Some y1).
+    { destruct (coord_eq _ _ _ Ey1) as [Er Eo]. replace (S (S rd + k)) with (S rd + S k)%nat by lia.
+      rewrite <- Er, <- Eo. apply tnode_in, Hy1. }
+    rewrite <- Eh1, <- Eh0, Esh. rewrite ao_S in T1.
+    destruct (pps_bit0 (ao k)) as (q & [(E1 & E2 & _ & E4)|(E1 & E2 & _ & E4)]).
+    - rewrite E2 in Ts. rewrite E4 in T1. rewrite E1 in T0.
+      assert (Ev : N.even (ao k) = true) by (rewrite E1, N.even_mul; reflexivity). rewrite Ev.
+      destruct (node_cases H HO s' _ _ y1 T1) as [r' xl xr _ Er Cxl Cxr Hh|Ll _ _|_ _ _ _ _ Hc].
+      + injection Er as <-. cbn [Nat.add] in T0, Ts. rewrite T0 in Cxl. rewrite Ts in Cxr. injection Cxl as <-. injection Cxr as <-.
+        exact Hh.
+      + congruence.
+      + destruct (Hc _ eq_refl) as [C _]. congruence.
+    - rewrite E2 in Ts. rewrite E4 in T1. rewrite E1 in T0.
+      assert (Ev : N.even (ao k) = false).
+      { rewrite E1, N.even_add, N.even_mul. reflexivity. }
+      rewrite Ev.
+      destruct (node_cases H HO s' _ _ y1 T1) as [r' xl xr _ Er Cxl Cxr Hh|Ll _ _|_ _ _ _ _ Hc].
+      + injection Er as <-. cbn [Nat.add] in T0, Ts. rewrite Ts in Cxl. rewrite T0 in Cxr. injection Cxl as <-. injection Cxr as <-.
+        exact Hh.
+      + congruence.
+      + destruct (Hc _ eq_refl) as [_ C]. congruence.
+  Qed.
+
+  (** ** the node map after the moves and after [updateHashes] *)
+  Variable bsb : bool.
+  Variable nd3 : nodemap H.
+  Variable ca3 : cachemap H.
+  Hypothesis Hvsb : nodes_get N0 (gpx sb) = Some (nhash sb, bsb).
+  Hypothesis M : moved HO T rdN od N0 ca (nhash sb, bsb) nd3 ca3.
+  Notation full := (ms_full m).
+  Notation nd4 := (updateHashes HO (ms_n m) (ms_total m) (ms_full m)
+                     (gp (ms_total m) (nrow x) (noff x)) (nhash sb) nd3).
+
+  Definition apos (k : nat) : N := gp T (S rd + k) (ao k).
+
+  Lemma apos_anc k : anc T (rdN + 1) (od / 2) (N.of_nat k) = apos k.
+  Proof. unfold anc, apos, gp, ao. f_equal. lia. Qed.
+
+  Lemma apos_node k y : In y lay -> coord y = ((S rd + k)%nat, ao k) -> gpx y = apos k.
+  Proof. intros Hy Ey. destruct (coord_eq _ _ _ Ey) as [Er Eo]. cbv beta. unfold apos. rewrite Er, Eo. reflexivity. Qed.
+
+  Lemma si_isroot y : In y lay -> isRootPositionTotalRows (gpx y) n T = nroot y.
+  Proof. intros Hy. rewrite si_len. exact (ng_isroot H HO s T si_n63 si_Tlo HT63 y Hy). Qed.
+
+  Lemma si_out y : In y lay -> ~ under Pc (coord y) ->
+    forall j b, j <= rdN + 1 -> b < 2 ^ j -> gpx y <> pU j b.
+  Proof.
+    intros Hy Hn j b Hj Hb E. apply Hn. destruct (si_valid y Hy) as [A B].
+    exact (proj1 (cp_U_inv T rd od HT63 si_rd si_od (nrow y) (noff y) j b A B Hj Hb E)).
+  Qed.
+
+  Lemma si_out_get y : In y lay -> ~ under Pc (coord y) -> nodes_get nd3 (gpx y) = nodes_get N0 (gpx y).
+  Proof. intros Hy Hn. apply (mo_out M). exact (si_out y Hy Hn). Qed.
+
+  Lemma si_garbage : nodes_get nd3 (2 ^ (T + 1) - 1) = None.
+  Proof.
+    rewrite (mo_out M).
+    - destruct (nodes_get N0 (2 ^ (T + 1) - 1)) as [[h b]|] eqn:E; [exfalso|reflexivity].
+      destruct (i_true I _ _ _ E) as (y & Hy & Ey & _).
+      pose proof (ng_range H HO s T si_n63 si_Tlo HT63 y Hy) as Hr. cbv beta in Hr. rewrite <- Ey in Hr.
+      pose proof (UtilsGeom.pow2_pos T). pose proof (UtilsGeom.pow2_S T). lia.
+    - intros j b Hj Hb E. destruct (posU_valid T rdN od HT63 si_rd si_od j b Hj Hb) as [A B].
+      pose proof (gpos_range T _ _ A B) as Hr. unfold posU in E. rewrite <- E in Hr.
+      pose proof (UtilsGeom.pow2_pos T). pose proof (UtilsGeom.pow2_S T). lia.
+  Qed.
+
+  Lemma si_above_root : J = 0%nat -> forall j, 1 <= j -> rdN + 1 + j <= T ->
+    nodes_get nd3 (gpos T (rdN + 1 + j) (od / 2 / 2 ^ j)) = None.
+  Proof.
+    intros HJ j Hj1 Hj.
+    assert (Hv : od / 2 / 2 ^ j < 2 ^ (T - (rdN + 1 + j))).
+    { apply anc_valid; [lia|]. pose proof (bl_q T rdN od HT63 si_rd si_od) as Hq.
+      replace (T - (rdN + 1)) with (T - rdN - 1) by lia. exact Hq. }
+    rewrite (mo_out M).
+    - destruct (nodes_get N0 (gpos T (rdN + 1 + j) (od / 2 / 2 ^ j))) as [[h b]|] eqn:E; [exfalso|reflexivity].
+      destruct (i_true I _ _ _ E) as (y & Hy & Ey & _). destruct (si_valid y Hy) as [A B].
+      unfold gp in Ey. destruct (gpos_inj T _ _ _ _ Hj Hv A B Ey) as [Er _].
+      assert (Uy : under (coord y) (coord p)).
+      { rewrite Ep. unfold under, coord. cbn [fst snd]. split; [lia|]. unfold p2.
+        destruct (gpos_inj T _ _ _ _ Hj Hv A B Ey) as [_ Eo].
+        rewrite <- Eo. f_equal. f_equal. lia. }
+      pose proof (ng_same_tree H HO s y p Hy Hp Uy) as Et.
+      pose proof (node_row_le_tree H HO s y Hy) as Hle. pose proof si_rd_tree. lia.
+    - intros j' b' Hj' Hb' E. destruct (posU_valid T rdN od HT63 si_rd si_od j' b' Hj' Hb') as [A B].
+      unfold posU in E. destruct (gpos_inj T _ _ _ _ Hj Hv A B E) as [Er _]. lia.
+  Qed.
+
+  Lemma si_parent_pos : Parent (gpx x) T = gpos T (rdN + 1) (od / 2) /\
+                        DetectRow (gpos T (rdN + 1) (od / 2)) T = rdN + 1.
+  Proof.
+    pose proof si_rd as Hr. pose proof si_od as Ho. split.
+    - cbv beta. unfold gp. apply Parent_gpos; [exact HT63|exact Hr|exact Ho].
+    - apply DetectRow_gpos; [exact HT63|lia|].
+      pose proof (bl_q T rdN od HT63 si_rd si_od) as Hq.
+      replace (T - (rdN + 1)) with (T - rdN - 1) by lia. exact Hq.
+  Qed.
+
+  Lemma sum_all :
+    (forall k, (1 <= k)%nat -> (k <= J)%nat -> nodes_get nd3 (apos k) <> None ->
+               nodes_get nd4 (apos k) = Some (nh k, full)) /\
+    (forall p', nodes_get nd3 p' = None -> nodes_get nd4 p' = None) /\
+    (forall p', (forall k, (1 <= k)%nat -> (k <= J)%nat -> p' <> apos k) ->
+                nodes_get nd4 p' = nodes_get nd3 p') /\
+    NoDup (map fst nd4) /\
+    (forall p', nodes_get nd3 p' <> None -> nodes_get nd4 p' <> None) /\
+    (forall p' v, nodes_get nd4 p' = Some v ->
+       (exists k, (1 <= k)%nat /\ (k <= J)%nat /\ p' = apos k /\ nodes_get nd3 p' <> None /\ v = (nh k, full)) \/
+       (nodes_get nd3 p' = Some v /\ forall k, (1 <= k)%nat -> (k <= J)%nat -> p' <> apos k)).
+  Proof.
+    destruct si_parent_pos as [EP ER]. unfold updateHashes. cbv zeta. rewrite EP, ER.
+    assert (Hq : od / 2 < 2 ^ (T - (rdN + 1))).
+    { pose proof (bl_q T rdN od HT63 si_rd si_od) as Hq.
+      replace (T - (rdN + 1)) with (T - rdN - 1) by lia. exact Hq. }
+    pose proof si_rd as Hrd.
+    destruct (Nat.eq_dec J 0) as [HJ|HJ].
+    - rewrite (uh_above H HO n T full HT63 300 (rdN + 1) (od / 2) (nhash sb) nd3 ltac:(lia) Hq
+                 (si_above_root HJ) si_garbage).
+      split; [intros k A B; lia|]. split; [auto|]. split; [auto|]. split; [exact (mo_k1 M)|].
+      split; [auto|].
+      intros p' v E. right. split; [exact E|]. intros k A B. lia.
+    - assert (HJT : rdN + 1 + N.of_nat J <= T).
+      { destruct (chain_node J (le_n _)) as (y & Hy & Ey & _). destruct (coord_eq _ _ _ Ey) as [Er _].
+        destruct (si_valid y Hy) as [A _]. lia. }
+      assert (P5 : forall j, 1 <= j -> j < N.of_nat J ->
+                isRootPositionTotalRows (anc T (rdN + 1) (od / 2) j) n T = false).
+      { intros j A B. pose proof (apos_anc (N.to_nat j)) as Ea. rewrite N2Nat.id in Ea. rewrite Ea.
+        destruct (chain_node (N.to_nat j) ltac:(lia)) as (y & Hy & Ey & _ & _ & Ry).
+        rewrite <- (apos_node _ y Hy Ey), (si_isroot y Hy), Ry. apply Nat.eqb_neq. lia. }
+      assert (P6 : isRootPositionTotalRows (anc T (rdN + 1) (od / 2) (N.of_nat J)) n T = true).
+      { rewrite apos_anc. destruct (chain_node J (le_n _)) as (y & Hy & Ey & _ & _ & Ry).
+        rewrite <- (apos_node _ y Hy Ey), (si_isroot y Hy), Ry. apply Nat.eqb_refl. }
+      assert (P7 : forall j, j < N.of_nat J -> exists b,
+                nodes_get nd3 (sibling (anc T (rdN + 1) (od / 2) j)) = Some (sh (N.to_nat j), b)).
+      { intros j B. pose proof (apos_anc (N.to_nat j)) as Ea. rewrite N2Nat.id in Ea. rewrite Ea.
+        destruct (chain_sib (N.to_nat j) ltac:(lia)) as (sk & Hsk & Esk & Hn1 & _ & b & Eb).
+        exists b. destruct (coord_eq _ _ _ Esk) as [Er Eo].
+        assert (Es : sibling (apos (N.to_nat j)) = gpx sk).
+        { unfold apos, gp. rewrite sibling_gpos.
+          - cbv beta. unfold gp. rewrite Er, Eo. reflexivity.
+          - destruct (si_valid sk Hsk) as [A _]. rewrite Er in A. exact A. }
+        rewrite Es, (si_out_get sk Hsk Hn1), Eb. f_equal. f_equal.
+        unfold sh. rewrite <- Er, <- Eo, (tnode_in H HO s sk Hsk). reflexivity. }
+      assert (P8 : forall j, j < N.of_nat J ->
+                (fun j => nh (N.to_nat j)) (j + 1) =
+                if N.even (od / 2 / 2 ^ j) then op_hash2 HO ((fun j => nh (N.to_nat j)) j) ((fun j => sh (N.to_nat j)) j)
+                else op_hash2 HO ((fun j => sh (N.to_nat j)) j) ((fun j => nh (N.to_nat j)) j)).
+      { intros j B. cbv beta. replace (N.to_nat (j + 1)) with (S (N.to_nat j)) by lia.
+        rewrite (nh_rec (N.to_nat j)) by lia. unfold ao. rewrite N2Nat.id. reflexivity. }
+      assert (E0 : nhash sb = (fun j => nh (N.to_nat j)) 0) by (symmetry; exact nh_0).
+      rewrite E0.
+      assert (HJ300 : N.of_nat J <= N.of_nat 300).
+      { pose proof (node_tree_63 H HO s si_n63 x Hx). lia. }
+      assert (HJ1 : 1 <= N.of_nat J) by lia.
+      destruct (uh_chain H HO n T full HT63 300 (N.of_nat J) (rdN + 1) (od / 2)
+                  (fun j => nh (N.to_nat j)) (fun j => sh (N.to_nat j)) nd3
+                  HJ1 HJ300 HJT Hq P5 P6 P7 P8) as (U1 & U2 & U3 & U4).
+      pose proof (uh_chain_src H HO n T full HT63 300 (N.of_nat J) (rdN + 1) (od / 2)
+                  (fun j => nh (N.to_nat j)) (fun j => sh (N.to_nat j)) nd3
+                  HJ1 HJ300 HJT Hq P5 P6 P7 P8) as U5.
+      cbv beta in U1, U5.
+      split; [|split; [|split; [|split; [|split]]]].
+      + intros k A B Hs. rewrite <- apos_anc. rewrite U1; [rewrite Nat2N.id; reflexivity|lia|lia|].
+        rewrite apos_anc. exact Hs.
+      + exact U2.
+      + intros p' Hp'. apply U3. intros j A B. pose proof (apos_anc (N.to_nat j)) as Ea.
+        rewrite N2Nat.id in Ea. rewrite Ea. apply Hp'; lia.
+      + apply U4. exact (mo_k1 M).
+      + intros p' Hs.
+        destruct (bounded_dec (fun j => p' = anc T (rdN + 1) (od / 2) j)
+                    (fun j => match N.eq_dec p' (anc T (rdN + 1) (od / 2) j) with
+                              | left e => or_introl e | right e => or_intror e end) (N.of_nat J))
+          as [(j & A & B & ->)|Hno].
+        * rewrite U1 by assumption. discriminate.
+        * rewrite U3 by exact Hno. exact Hs.
+      + intros p' v E. destruct (U5 p' v E) as [(j & A & B & Ej & Hs & Ev)|[E' Hno]].
+        * left. exists (N.to_nat j). pose proof (apos_anc (N.to_nat j)) as Ea.
+          rewrite N2Nat.id in Ea. rewrite Ea in Ej.
+          repeat split; try assumption; lia.
+        * right. split; [exact E'|]. intros k A B. rewrite <- apos_anc. apply Hno; lia.
+  Qed.
+
+  (** ** the surviving leaves *)
+  Notation Rn' := (filter (fun h => negb (memH HO h L)) Rn).
+
+  Lemma si_leaf_bottom w y : In w lay -> In y lay -> nleaf w = true -> under (coord w) (coord y) -> y = w.
+  Proof. exact (ng_leaf_bottom H HO s T si_n63 si_Tlo HT63 w y). Qed.
+
+  Lemma x_or_sb c : under Pc c -> c <> Pc -> under (coord x) c \/ under sbc c.
+  Proof.
+    intros U Hne. destruct c as [rc oc].
+    assert (Hle : (rc <= rd)%nat).
+    { destruct U as [Hr E]. cbn [fst snd] in *. destruct (Nat.eq_dec rc (S rd)) as [->|]; [|lia].
+      exfalso. apply Hne. rewrite Nat.sub_diag, p2_0, N.div_1_r in E. congruence. }
+    destruct (bl_sbo T rdN od HT63 si_rd si_od) as (_ & _ & [[E1 E2]|[E1 E2]]);
+      destruct (under_split rd (od / 2) (rc, oc) U Hle) as [U'|U'].
+    - left. unfold coord. rewrite <- E1 in U'. exact U'.
+    - right. rewrite <- E2 in U'. exact U'.
+    - right. rewrite <- E2 in U'. exact U'.
+    - left. unfold coord. rewrite <- E1 in U'. exact U'.
+  Qed.
+
+  (** a surviving leaf lies below the sibling (and moves up) or away from the parent (and stays) *)
+  Lemma leaf_class w : In w lay -> nleaf w = true -> memH HO (nhash w) L = false ->
+    (under sbc (coord w) /\ In (upn H rd fl w) lay') \/
+    (~ under Pc (coord w) /\ ~ under (coord w) Pc /\ In w lay').
+  Proof.
+    intros Hw Lw Hm. destruct (under_dec Pc (coord w)) as [U|Hn].
+    - left. assert (Hne : coord w <> Pc).
+      { intros E. rewrite <- Ep in E. rewrite (ng_coord_eq H HO s w p Hw Hp E) in Lw. congruence. }
+      destruct (x_or_sb _ U Hne) as [Ux|Us].
+      + apply (Hdel w Hw Lw) in Ux. congruence.
+      + split; [exact Us|apply ref_sb; assumption].
+    - right. assert (Hn2 : ~ under (coord w) Pc).
+      { intros U. rewrite <- Ep in U. rewrite (si_leaf_bottom w p Hw Hp Lw U) in Hpl. congruence. }
+      split; [exact Hn|]. split; [exact Hn2|apply ref_other; assumption].
+  Qed.
+
+  Definition img (w : node H) : node H :=
+    if under_dec Pc (coord w) then upn H rd fl w else w.
+
+  Lemma img_spec w : In w lay -> nleaf w = true -> memH HO (nhash w) L = false ->
+    In (img w) lay' /\ nleaf (img w) = true /\ nhash (img w) = nhash w /\ ntree (img w) = ntree w.
+  Proof.
+    intros Hw Lw Hm. unfold img. destruct (leaf_class w Hw Lw Hm) as [[Us Hin]|(Hn & _ & Hin)].
+    - destruct (under_dec Pc (coord w)) as [_|Hn]; [auto|].
+      exfalso. apply Hn. exact (under_trans _ _ _ (proj1 (under_sib_par rd od)) Us).
+    - destruct (under_dec Pc (coord w)) as [U|_]; [contradiction|auto].
+  Qed.
+
+  Lemma new_leaf y' : In y' lay' -> nleaf y' = true ->
+    exists w, In w lay /\ nleaf w = true /\ memH HO (nhash w) L = false /\ nhash w = nhash y' /\ y' = img w.
+  Proof.
+    intros Hy' Ly'. pose proof (layout_leaf_live H HO s' y' Hy' Ly') as Hl.
+    apply kill_live in Hl as [Hl Hm]. destruct (live_leaf_in_layout H HO s _ Hl) as (w & Hw & Lw & Ew).
+    exists w. rewrite Ew. repeat split; try assumption. rewrite <- Ew in Hm.
+    destruct (img_spec w Hw Lw Hm) as (A & B & C & _).
+    apply (live_leaf_unique H HO s' y' (img w) (kill_nodup H HO L s (i_live_nd I)) Hy' A Ly' B). congruence.
+  Qed.
+
+  Lemma Rn'_spec h : In h Rn' <-> In h Rn /\ memH HO h L = false.
+  Proof. rewrite filter_In. destruct (memH HO h L); cbn; intuition congruence. Qed.
+
+  Lemma Rc_not_L h : In h Rc -> memH HO h L = false.
+  Proof.
+    intros Hh. destruct (live_leaf_in_layout H HO s h (i_Rn I h (i_sub I h Hh))) as (w & Hw & Lw & Ew).
+    destruct (memH HO h L) eqn:Em; [exfalso|reflexivity]. rewrite <- Ew in Em.
+    apply (Hdel w Hw Lw) in Em. apply (HLc w Hw Lw Em). rewrite Ew. exact Hh.
+  Qed.
+
+  (** positions of the images *)
+  Lemma img_pos_sb w : In w lay -> under sbc (coord w) ->
+    exists j b, j <= rdN /\ b < 2 ^ j /\ j = N.of_nat (rd - nrow w) /\
+      gpx w = pS j b /\ gpx (upn H rd fl w) = pU j b.
+  Proof.
+    intros Hw U. destruct (cp_S T rd od HT63 si_rd si_od (nrow w) (noff w) U) as (j & b & A & B & C & D & E).
+    exists j, b. repeat split; assumption.
+  Qed.
+
+  Lemma chain_pos_out k j b : (k <= J)%nat -> (1 <= k)%nat -> j <= rdN + 1 -> b < 2 ^ j -> apos k <> pU j b.
+  Proof.
+    intros Hk Hk1 Hj Hb. destruct (chain_node k Hk) as (y & Hy & Ey & _).
+    rewrite <- (apos_node k y Hy Ey). apply (si_out y Hy); [|exact Hj|exact Hb].
+    rewrite Ey. intros [Hle _]. cbn [fst] in Hle. lia.
+  Qed.
+
+  Lemma si_U_keep j b : j <= rdN + 1 -> b < 2 ^ j -> nodes_get nd4 (pU j b) = nodes_get nd3 (pU j b).
+  Proof.
+    intros Hj Hb. destruct sum_all as (_ & _ & S3 & _). apply S3.
+    intros k A B E. symmetry in E. revert E. apply chain_pos_out; assumption.
+  Qed.
+
+  Lemma si_notroot : isRootPositionTotalRows (gpos T rdN od) n T = false.
+  Proof. rewrite <- Hxr. exact (si_isroot x Hx). Qed.
+
+  (** ** the clauses of the invariant after the moves and [updateHashes] *)
+  Lemma st_true p' h b : nodes_get nd4 p' = Some (h, b) ->
+    exists x', In x' lay' /\ p' = gpx x' /\ nhash x' = h.
+  Proof.
+    intros E. destruct sum_all as (_ & _ & _ & _ & _ & S5).
+    destruct (S5 p' (h, b) E) as [(k & A & B & -> & _ & Ev)|[E3 Hno]].
+    - injection Ev as -> _. destruct (new_node k B) as (y' & Hy' & Ey' & Eh & _).
+      exists y'. split; [exact Hy'|]. split; [|exact Eh].
+      destruct (coord_eq _ _ _ Ey') as [Er Eo]. cbv beta. unfold apos. rewrite Er, Eo. reflexivity.
+    - destruct (moved_src H HO n T rdN od HT63 si_rd si_od N0 ca (nhash sb, bsb)
+                  si_notroot si_uniq nd3 ca3 M p' (h, b) E3)
+        as [[-> Ev]|[(j & c & Hj1 & Hj & Hc & -> & Es)|[E0 Hout]]].
+      + injection Ev as -> _. exists (upn H rd fl sb).
+        split; [apply ref_sb; [exact Hsb|rewrite Esb; apply under_refl]|]. split; [|reflexivity].
+        destruct (coord_eq _ _ _ upn_coord_sb) as [Er Eo]. cbv beta. rewrite Er, Eo. unfold gp. f_equal. lia.
+      + destruct (i_true I _ _ _ Es) as (y & Hy & Ey & Eh). destruct (si_valid y Hy) as [A B].
+        unfold gp in Ey. symmetry in Ey.
+        destruct (cp_S_inv T rd od HT63 si_rd si_od (nrow y) (noff y) j c A B ltac:(lia) Hc Ey) as [Uy _].
+        exists (upn H rd fl y). split; [apply ref_sb; assumption|]. split; [|exact Eh].
+        destruct (img_pos_sb y Hy Uy) as (j' & c' & Hj' & Hc' & _ & E1 & E2). cbv beta in *. rewrite E2.
+        cbv beta in E1. unfold gp in E1. rewrite Ey in E1.
+        destruct (N.eq_dec j j') as [<-|Hne].
+        * rewrite (posS_inj T rdN od HT63 si_rd si_od j c c' ltac:(lia) Hc Hc' E1). reflexivity.
+        * exfalso. exact (posS_row_neq T rdN od HT63 si_rd si_od j c j' c' ltac:(lia) Hc Hj' Hc' Hne E1).
+      + destruct (i_true I _ _ _ E0) as (y & Hy & -> & Eh).
+        assert (Hn1 : ~ under Pc (coord y)).
+        { intros U. destruct (si_valid y Hy) as [A B].
+          destruct (N.eq_dec 0 0) as [_|]; [|lia].
+          assert (Hc : coord y = Pc \/ coord y <> Pc).
+          { destruct (Nat.eq_dec (nrow y) (S rd)) as [Er|Er].
+            - destruct (N.eq_dec (noff y) (od / 2)) as [Eo|Eo]; [left; unfold coord; congruence|].
+              right. intros C. injection C as _ C. contradiction.
+            - right. intros C. injection C as C _. contradiction. }
+          destruct Hc as [Ec|Hne].
+          - destruct (coord_eq _ _ _ Ec) as [Er Eo].
+            apply (Hout 0 0); [lia|cbn; lia|]. cbv beta. rewrite Er, Eo. exact (cp_U0 T rd od HT63 si_rd si_od).
+          - destruct (cp_U T rd od HT63 si_rd si_od (nrow y) (noff y) U Hne) as (j & c & Hj1 & Hj & Hc' & Ec).
+            exact (Hout j c Hj Hc' Ec). }
+        assert (Hn2 : ~ under (coord y) Pc).
+        { intros U. destruct U as [Hle Eo]. unfold coord in Hle, Eo. cbn [fst snd] in Hle, Eo.
+          pose proof (ng_same_tree H HO s y p Hy Hp ltac:(rewrite Ep; split; [exact Hle|exact Eo])) as Et.
+          pose proof (node_row_le_tree H HO s y Hy) as Hrt.
+          assert (Hk : (nrow y - S rd <= J)%nat) by lia.
+          assert (Hk1 : (1 <= nrow y - S rd)%nat).
+          { destruct (Nat.eq_dec (nrow y) (S rd)) as [Er|]; [|lia]. exfalso. apply Hn1.
+            rewrite Er, Nat.sub_diag, p2_0, N.div_1_r in Eo. unfold coord. rewrite Er, <- Eo. apply under_refl. }
+          apply (Hno (nrow y - S rd)%nat Hk1 Hk). cbv beta. unfold apos, ao. unfold p2 in Eo. rewrite Eo.
+          f_equal. lia. }
+        exists y. split; [apply ref_other; assumption|]. split; [reflexivity|exact Eh].
+  Qed.
+
+  Lemma sb_under_P c : under sbc c -> under Pc c.
+  Proof. intros U. exact (under_trans _ _ _ (proj1 (under_sib_par rd od)) U). Qed.
+
+  (** where the hash of a cached leaf is found after the moves *)
+  Lemma cached_new h w : In h Rc -> In w lay -> nleaf w = true -> nhash w = h ->
+    cached_get HO ca3 h = Some (gpx (img w)).
+  Proof.
+    intros Hh Hw Lw Ew. pose proof (Rc_not_L h Hh) as Hm. rewrite <- Ew in Hm.
+    assert (Ec : cached_get HO ca h = Some (gpx w)).
+    { apply (i_cached I). split; [exact Hh|]. exists w. auto. }
+    assert (Es : nodes_get N0 (gpx w) = Some (h, true)).
+    { rewrite <- Ew. apply (i_leaf I w Hw Lw). rewrite Ew. exact (i_sub I h Hh). }
+    assert (Hhas : cached_has HO ca h = true) by (unfold cached_has; rewrite Ec; reflexivity).
+    unfold img. destruct (leaf_class w Hw Lw Hm) as [[Us Hin]|(Hn & _ & Hin)].
+    - destruct (under_dec Pc (coord w)) as [_|Hn]; [|exfalso; exact (Hn (sb_under_P _ Us))].
+      destruct (img_pos_sb w Hw Us) as (j & b & Hj & Hb & _ & E1 & E2). cbv beta in *. rewrite E2.
+      rewrite E1 in Es. exact (mo_cup M Hj Hb Es Hhas).
+    - destruct (under_dec Pc (coord w)) as [U|_]; [contradiction|].
+      rewrite (mo_cout M); [exact Ec|].
+      intros j b v Hj Hb Ev Ef. destruct v as [hv bv]. cbn [fst] in Ef. subst hv.
+      destruct (i_true I _ _ _ Ev) as (y & Hy & Ey & Eh). destruct (si_valid y Hy) as [A B].
+      unfold gp in Ey. symmetry in Ey.
+      destruct (cp_S_inv T rd od HT63 si_rd si_od (nrow y) (noff y) j b A B Hj Hb Ey) as [Uy _].
+      rewrite (inv_leaf_hash H HO s Rc Rn m I y w Hy Hw Lw ltac:(congruence)) in Uy.
+      exact (Hn (sb_under_P _ Uy)).
+  Qed.
+
+  Lemma st_cached h p' : cached_get HO ca3 h = Some p' <->
+    In h Rc /\ exists x', In x' lay' /\ nleaf x' = true /\ nhash x' = h /\ p' = gpx x'.
+  Proof.
+    split.
+    - intros E. assert (Hhas : cached_has HO ca h = true).
+      { rewrite <- (mo_chas M). unfold cached_has. rewrite E. reflexivity. }
+      apply (chas_get H HO) in Hhas. destruct (cached_get HO ca h) as [q|] eqn:Eq; [|congruence].
+      apply (i_cached I) in Eq as (Hh & w & Hw & Lw & Ew & _). split; [exact Hh|].
+      pose proof (Rc_not_L h Hh) as Hm. rewrite <- Ew in Hm.
+      destruct (img_spec w Hw Lw Hm) as (A & B & C & _). exists (img w).
+      rewrite (cached_new h w Hh Hw Lw Ew) in E. injection E as <-. repeat split; try assumption. congruence.
+    - intros (Hh & x' & Hx' & Lx' & Ex' & ->).
+      destruct (new_leaf x' Hx' Lx') as (w & Hw & Lw & Hm & Ew & ->).
+      apply (cached_new h w Hh Hw Lw). congruence.
+  Qed.
+
+  Lemma sum_stored q : nodes_get nd3 q <> None -> nodes_get nd4 q <> None.
+  Proof. destruct sum_all as (_ & _ & _ & _ & S & _). apply S. Qed.
+
+  Lemma st_roots x' : In x' lay' -> nroot x' = true -> nodes_get nd4 (gpx x') <> None.
+  Proof.
+    intros Hx' Hr. destruct (kill_roots H HO L s x' Hx' Hr) as (y & Hy & Ry & Ec).
+    destruct (coord_eq _ _ _ (eq_sym Ec)) as [Er Eo]. cbv beta. rewrite Er, Eo.
+    change (nodes_get nd4 (gpx y) <> None). apply sum_stored.
+    destruct (under_dec Pc (coord y)) as [U|Hn].
+    - destruct (Nat.eq_dec (nrow y) (S rd)) as [E|E].
+      + assert (Ey : coord y = Pc).
+        { destruct U as [_ Eo']. unfold coord in *. cbn [fst snd] in *. rewrite E, Nat.sub_diag, p2_0, N.div_1_r in Eo'.
+          congruence. }
+        rewrite <- Ep in Ey. rewrite (ng_coord_eq H HO s y p Hy Hp Ey), si_gpx_p, (mo_par M). discriminate.
+      + exfalso. assert (Hne : coord y <> Pc) by (intros C; injection C as C _; contradiction).
+        destruct (x_or_sb _ U Hne) as [Ux|Us].
+        * exact (ng_root_top H HO s T si_n63 si_Tlo HT63 x y Hx Hy Hxr Ry Ux).
+        * rewrite <- Esb in Us. exact (ng_root_top H HO s T si_n63 si_Tlo HT63 sb y Hsb Hy Hsbr Ry Us).
+    - rewrite (si_out_get y Hy Hn). exact (i_roots I y Hy Ry).
+  Qed.
+
+  Lemma st_leaf x' : In x' lay' -> nleaf x' = true -> In (nhash x') Rn' ->
+    nodes_get nd4 (gpx x') = Some (nhash x', true).
+  Proof.
+    intros Hx' Lx' Hh. apply Rn'_spec in Hh as [Hh _].
+    destruct (new_leaf x' Hx' Lx') as (w & Hw & Lw & Hm & Ew & ->). rewrite <- Ew in *.
+    pose proof (i_leaf I w Hw Lw Hh) as Es.
+    destruct sum_all as (_ & _ & S3 & _).
+    unfold img. destruct (leaf_class w Hw Lw Hm) as [[Us Hin]|(Hn & _ & Hin)].
+    - destruct (under_dec Pc (coord w)) as [_|Hn]; [|exfalso; exact (Hn (sb_under_P _ Us))].
+      destruct (img_pos_sb w Hw Us) as (j & b & Hj & Hb & Ej & E1 & E2). cbv beta in *. rewrite E2.
+      rewrite si_U_keep by (try assumption; lia). rewrite E1 in Es.
+      destruct (N.eq_dec j 0) as [->|Hj0].
+      + assert (b = 0) by (cbn in Hb; lia). subst b.
+        rewrite (rs_pU0 T rdN od), (mo_par M). rewrite (rs_pS0 T rdN od) in Es.
+        rewrite <- si_gpx_sb, Hvsb in Es. exact Es.
+      + rewrite (mo_up M) by (try assumption; lia). exact Es.
+    - destruct (under_dec Pc (coord w)) as [U|_]; [contradiction|].
+      rewrite S3; [rewrite (si_out_get w Hw Hn); exact Es|].
+      intros k A B E. destruct (chain_node k B) as (y & Hy & Ey & _ & Ly & _).
+      rewrite <- (apos_node k y Hy Ey) in E. rewrite (si_inj w y Hw Hy E) in Lw. congruence.
+  Qed.
+
+  Lemma under_anc (w : node H) (k : nat) : under ((nrow w + k)%nat, noff w / 2 ^ N.of_nat k) (coord w).
+  Proof. split; cbn [fst snd]; [unfold coord; cbn; lia|]. unfold coord, p2. cbn [fst snd]. f_equal. f_equal. lia. Qed.
+
+  Lemma st_sibs x' : In x' lay' -> nleaf x' = true -> In (nhash x') Rn' ->
+    forall k : nat, (nrow x' + k < ntree x')%nat ->
+    nodes_get nd4 (gp T (nrow x' + k) (N.lxor (noff x' / 2 ^ N.of_nat k) 1)) <> None.
+  Proof.
+    intros Hx' Lx' Hh k Hk. apply Rn'_spec in Hh as [Hh _].
+    destruct (new_leaf x' Hx' Lx') as (w & Hw & Lw & Hm & Ew & ->). rewrite <- Ew in Hh.
+    destruct (img_spec w Hw Lw Hm) as (_ & _ & _ & Et). rewrite Et in Hk.
+    apply sum_stored. revert Hk. unfold img.
+    destruct (leaf_class w Hw Lw Hm) as [[Us Hin]|(Hn & _ & Hin)].
+    - destruct (under_dec Pc (coord w)) as [_|Hn]; [|exfalso; exact (Hn (sb_under_P _ Us))].
+      unfold upn. cbn [nrow noff]. intros Hk.
+      assert (Et' : ntree w = ntree x).
+      { rewrite <- Ets. apply (ng_same_tree H HO s sb w Hsb Hw). rewrite Esb. exact Us. }
+      destruct (under_decomp _ _ Us) as [Eo Hb]. destruct Us as [Hr _]. unfold coord in Hr, Eo, Hb.
+      cbn [fst snd] in Hr, Eo, Hb.
+      set (jn := (rd - nrow w)%nat) in *. set (b := noff w mod 2 ^ N.of_nat jn) in *. clearbody b.
+      assert (Erm : rmbit (noff w) (N.of_nat jn) = od / 2 * 2 ^ N.of_nat jn + b).
+      { rewrite Eo at 1. rewrite rmbit_block by exact Hb.
+        destruct (bl_sbo T rdN od HT63 si_rd si_od) as (_ & -> & _). reflexivity. }
+      rewrite Erm. pose proof si_rd as Hrd. pose proof si_rd_tree as Hrt.
+      destruct (Nat.lt_ge_cases k jn) as [Hlt|Hge].
+      + (* below the parent: the moved sibling of the ancestor *)
+        destruct (block_div (od / 2) (N.of_nat jn) b (N.of_nat k) Hb ltac:(lia)) as [D1 D2].
+        destruct (block_lxor (od / 2) (N.of_nat jn - N.of_nat k) (b / 2 ^ N.of_nat k) ltac:(lia) D2) as [X1 X2].
+        rewrite D1, X1.
+        destruct (block_div (N.lxor od 1) (N.of_nat jn) b (N.of_nat k) Hb ltac:(lia)) as [D1' _].
+        destruct (block_lxor (N.lxor od 1) (N.of_nat jn - N.of_nat k) (b / 2 ^ N.of_nat k) ltac:(lia) D2) as [X1' _].
+        pose proof (i_sibs I w Hw Lw Hh k ltac:(lia)) as Hs.
+        rewrite Eo, D1', X1' in Hs.
+        set (j' := N.of_nat jn - N.of_nat k) in *. set (c' := N.lxor (b / 2 ^ N.of_nat k) 1) in *.
+        assert (EU : gp T (S (nrow w) + k) (od / 2 * 2 ^ j' + c') = pU j' c').
+        { unfold gp, posU. f_equal. lia. }
+        assert (ES : gp T (nrow w + k) (N.lxor od 1 * 2 ^ j' + c') = pS j' c').
+        { unfold gp, posS. f_equal. lia. }
+        rewrite EU. rewrite ES in Hs. rewrite (mo_up M) by (try assumption; lia). exact Hs.
+      + (* at or above the parent: the sibling of an ancestor of the parent *)
+        rewrite (block_div_hi (od / 2) (N.of_nat jn) b (N.of_nat k) Hb ltac:(lia)).
+        assert (Hk' : (k - jn < J)%nat) by lia.
+        destruct (chain_sib (k - jn) Hk') as (sk & Hsk & Esk & Hn1 & _ & bk & Ebk).
+        destruct (coord_eq _ _ _ Esk) as [Er Eo'].
+        assert (Eg : gp T (S (nrow w) + k) (N.lxor (od / 2 / 2 ^ (N.of_nat k - N.of_nat jn)) 1) = gpx sk).
+        { cbv beta. rewrite Er, Eo'. unfold ao. f_equal; [lia|]. f_equal. f_equal. f_equal. lia. }
+        rewrite Eg, (si_out_get sk Hsk Hn1), Ebk. discriminate.
+    - destruct (under_dec Pc (coord w)) as [U|_]; [contradiction|]. intros Hk.
+      pose proof (i_sibs I w Hw Lw Hh k Hk) as Hs.
+      set (c := gp T (nrow w + k) (N.lxor (noff w / 2 ^ N.of_nat k) 1)) in *.
+      destruct (nodes_get N0 c) as [[hs bs]|] eqn:Ec; [clear Hs|congruence].
+      destruct (i_true I _ _ _ Ec) as (sk & Hsk & Esk & _).
+      (* the coordinates of [sk] *)
+      destruct (si_valid w Hw) as [Aw Bw]. destruct (si_valid sk Hsk) as [As Bs].
+      pose proof (node_tree_63 H HO s si_n63 w Hw) as H63.
+      assert (HrT : N.of_nat (nrow w + k) < T).
+      { destruct (ng_ancestor H HO s T si_n63 si_Tlo HT63 w Hw (S k) ltac:(lia)) as (y & Hy & Ey & _).
+        destruct (coord_eq _ _ _ Ey) as [Er _]. destruct (si_valid y Hy) as [A _]. lia. }
+      assert (Hv : noff w / 2 ^ N.of_nat k < 2 ^ (T - N.of_nat (nrow w + k))).
+      { rewrite Nat2N.inj_add. apply anc_valid; [lia|exact Bw]. }
+      destruct (sib_offsets_lt T _ _ HrT Hv) as (Hvs & _).
+      unfold c, gp in Esk.
+      destruct (gpos_inj T _ _ _ _ (N.lt_le_incl _ _ HrT) Hvs As Bs Esk) as [Er Eo].
+      destruct (under_dec Pc (coord sk)) as [U|Hn'].
+      + destruct (Nat.eq_dec (nrow sk) (S rd)) as [E|E].
+        * assert (Ey : coord sk = coord p).
+          { rewrite Ep. destruct U as [_ Eo']. unfold coord in *. cbn [fst snd] in *.
+            rewrite E, Nat.sub_diag, p2_0, N.div_1_r in Eo'. congruence. }
+          rewrite (ng_coord_eq H HO s sk p Hsk Hp Ey) in Esk. unfold c, gp. rewrite Esk.
+          fold (gp T (nrow p) (noff p)). rewrite si_gpx_p, (mo_par M). discriminate.
+        * exfalso. apply Hn.
+          assert (Hlt : (nrow sk < S rd)%nat) by (destruct U as [Hle _]; unfold coord in Hle; cbn in Hle; lia).
+          pose proof (under_sib Pc (nrow sk) (noff sk) U Hlt) as U2.
+          rewrite <- Eo, pps_lxor_invol in U2.
+          replace (nrow sk) with (nrow w + k)%nat in U2 by lia.
+          exact (under_trans _ _ _ U2 (under_anc w k)).
+      + assert (Ecs : c = gpx sk) by (unfold c, gp; exact Esk).
+        rewrite Ecs, (si_out_get sk Hsk Hn'), <- Ecs, Ec. discriminate.
+  Qed.
+
+  Theorem st_Inv : Inv2 HO s' Rc Rn' (mkM nd4 ca3 n T full).
+  Proof.
+    constructor; cbn [ms_n ms_total ms_nodes ms_cached].
+    - unfold num_leaves. rewrite (length_kill H HO L s). exact (i_n I).
+    - exact (i_n63 I).
+    - exact (i_rows I).
+    - exact HT63.
+    - exact (kill_nodup H HO L s (i_live_nd I)).
+    - intros h a b Hin. apply kill_live in Hin as [Hin _]. exact (i_live_nn I h a b Hin).
+    - intros h Hin. apply kill_live in Hin as [Hin _]. exact (i_live_nz I h Hin).
+    - destruct sum_all as (_ & _ & _ & K & _). exact K.
+    - exact (mo_k2 M).
+    - exact st_true.
+    - intros h Hh. apply Rn'_spec in Hh as [Hh Hm]. apply kill_live. split; [exact (i_Rn I h Hh)|exact Hm].
+    - intros h Hh. apply Rn'_spec. split; [exact (i_sub I h Hh)|exact (Rc_not_L h Hh)].
+    - exact st_cached.
+    - exact st_roots.
+    - exact st_leaf.
+    - exact st_sibs.
+  Qed.
+  (** ** ... and after [forgetUnneededDel] *)
+  Theorem st_fud :
+    Inv2 HO s' Rc Rn' (mkM (forgetUnneededDel HO n T (gp T (nrow x) (noff x)) nd4) ca3 n T full).
+  Proof.
+    pose proof st_Inv as I4.
+    assert (Hy0 : In (upn H rd fl sb) lay') by (apply ref_sb; [exact Hsb|rewrite Esb; apply under_refl]).
+    destruct (coord_eq _ _ _ upn_coord_sb) as [Er0 Eo0].
+    assert (Eg0 : gp T (nrow (upn H rd fl sb)) (noff (upn H rd fl sb)) = gpos T (rdN + 1) (od / 2)).
+    { rewrite Er0, Eo0. unfold gp. f_equal. lia. }
+    exact (fud_from_del H HO s' Rc Rn' (mkM nd4 ca3 n T full) rdN od (upn H rd fl sb)
+             I4 Hy0 si_rd si_od Eg0 si_notroot).
+  Qed.
+End StepInner.
